@@ -208,7 +208,7 @@ Proof.
 Qed.
 
 Lemma h_rv_abs dst nd t src lli llt ok nd' r :
-  h_rv dst nd t src lli llt ok = (nd', r) ->
+  h_rv ru dst nd t src lli llt ok = (nd', r) ->
   exists okA,
     let b := Vote.bump (absn nd) (N.to_nat t) in
     let grant := (N.to_nat t =? Vote.term b)%nat && Vote.can_vote b (N.to_nat src) && okA in
@@ -222,10 +222,10 @@ Proof.
   rewrite Ecv. clear Ecv.
   destruct (N.eqb t (term nd1)).
   - destruct (last_info (log nd1)) as [mli mlt].
-    exists ((N.ltb mlt llt || N.eqb llt mlt && N.ltb mli lli || N.eqb llt mlt && N.eqb lli mli) && ok).
+    exists (vote_log_ok ru lli llt mli mlt ok && ok).
     cbv zeta. cbn [andb].
     set (cv := match voted nd1 with None => true | Some c => N.eqb c src end) in *.
-    set (lg := N.ltb mlt llt || N.eqb llt mlt && N.ltb mli lli || N.eqb llt mlt && N.eqb lli mli) in *.
+    set (lg := vote_log_ok ru lli llt mli mlt ok) in *.
     replace (cv && (lg && ok)) with (cv && lg && ok) by (destruct cv, lg, ok; reflexivity).
     destruct (cv && lg && ok); injection H as <- <-; (split; [reflexivity|eexists; split; reflexivity]).
   - exists false. cbv zeta. cbn [andb]. injection H as <- <-. split; [reflexivity|eexists; split; reflexivity].
@@ -326,7 +326,7 @@ Proof.
       assert (Ec : src = cand) by (eapply (R_rv _ _ HR); eauto). subst cand.
       assert (Hm : In (Vote.RV (N.to_nat t) (N.to_nat src) (N.to_nat dst)) (Vote.msgs a)).
       { eapply (R_msgs _ _ HR); [exact Ek|]. cbn. left. reflexivity. }
-      destruct (h_rv dst nd t src lli llt ok) as [nd' r] eqn:Eh.
+      destruct (h_rv ru dst nd t src lli llt ok) as [nd' r] eqn:Eh.
       destruct (h_rv_abs _ _ _ _ _ _ _ _ _ Eh) as [okA [Hn' [tt [Hr Htt]]]]. cbv zeta in Hn'.
       pose proof (Vote.s_recv_rv n q a (N.to_nat dst) (N.to_nat t) (N.to_nat src) okA (id_lt _ Hdst) Hm) as St.
       cbv zeta in St. eexists. split; [right; exact St|].
